@@ -508,7 +508,7 @@ func init() {
 		Technique: "recording Loader/Cache wrappers: every path argument observed; lookups compared with an independent canonicalisation of the spelling; canary file outside a directory-rooted loader",
 		Rule: "each case is one reference (GetTemplate, extends, import, include static/computed from context/computed from a variable, exec static/computed, includeIfExists) from a referrer at directory depth 0-3 to a target spelt relatively or absolutely with ./ ../ // detours, trailing slashes and surplus '..', under 5 extension lists; " +
 			"same-named targets exist in 7 directories so a wrong resolution renders a different file; oracle: every Loader.Exists/Open and Cache.Get/Put argument is absolute and path.Clean-stable, the Exists probes equal canon(spelling)+extensions in order up to the first existing file, output/Template.Name identify that file; " +
-			"1/16 of the cases run on an OS-rooted Set with a canary file outside the root that must never be read; non-trivial = spelling differs from its canonical form; distinct by (entry point, referrer dir, spelling shape, extension list)",
+			"1/16 of the cases run on an OS-rooted Set with a canary file outside the root that must never be read; non-trivial = spelling differs from its canonical form; distinct by (entry point, referrer dir, spelling shape, extension list) Since wave 8: a quarter of the single-lookup cases use a development-mode Set; spellings whose last segment is white space or a dot segment followed by white space; extension lists without leading dots.",
 		Assumptions: []string{"path.Clean defines 'lexically clean'", "backslash spellings are out of scope on this platform (filepath.ToSlash is the identity on Linux)"},
 		NCases:      c15n,
 		RunCase:     c15run,
